@@ -209,7 +209,26 @@ func genCase(t *rapid.T, allowNodeFail bool) Case {
 			}
 			continue
 		}
-		switch x := rapid.IntRange(0, 19).Draw(t, "op"); {
+		switch x := rapid.IntRange(0, 20).Draw(t, "op"); {
+		case x == 20:
+			// a PUBLISH that arrives in two pieces while other clients come and go on that node:
+			// the client stays within the protocol and its keep-alive, its session must go on
+			node := 0
+			for _, st := range c.Steps {
+				if st.Op == "connect" && st.C == ci {
+					node = st.Node
+				}
+			}
+			payload++
+			pad := rapid.SampledFrom([]int{0, 150, 150, 150, 20000}).Draw(t, "pad")
+			c.Steps = append(c.Steps, sim.Step{Op: "pubpart", C: ci, Topic: rapid.SampledFrom(topics).Draw(t, "topic"), Payload: fmt.Sprintf("p%d", payload), Pad: pad,
+				PQoS: byte(rapid.IntRange(0, 1).Draw(t, "pqos")), Split: rapid.SampledFrom([]int{1, 2, 2, 2, 3, 9}).Draw(t, "split")})
+			if ka >= 60 {
+				c.Steps = append(c.Steps, sim.Step{Op: "churn", Node: node, IdleMs: int64(rapid.SampledFrom([]int{1, 21, 21, 45}).Draw(t, "churn"))})
+			}
+			if rapid.Bool().Draw(t, "explicitRest") {
+				c.Steps = append(c.Steps, sim.Step{Op: "pubrest", C: ci})
+			}
 		case x < 5:
 			f := rapid.SampledFrom(filters).Draw(t, "filter")
 			c.Steps = append(c.Steps, sim.Step{Op: "sub", C: ci, Filters: []string{f}, QoS: []int{rapid.IntRange(0, 1).Draw(t, "qos")}})
